@@ -18,9 +18,10 @@ passed=$(grep -o 'test result: ok. [0-9]* passed; 0 failed' $log | head -1)
 echo "$id suite: $passed"
 echo "$passed" | grep -q '291 passed' || { echo "$id: suite does not pass"; exit 1; }
 (cd demo && cargo build --offline >> $log 2>&1 && cargo run --offline > /tmp/confirm_${id}_with.txt 2>&1); with=$?
-git stash push -q -- src
+# NOT git stash: the stash is shared by all worktrees of a repository, and sub-agents work in sibling worktrees
+git apply -R /tmp/confirm_$id.diff || { echo "$id: cannot reverse-apply the change"; exit 1; }
 (cd demo && cargo build --offline >> $log 2>&1 && cargo run --offline > /tmp/confirm_${id}_without.txt 2>&1); without=$?
-git stash pop -q
+git apply /tmp/confirm_$id.diff
 echo "$id demo: with-change rc=$with, without-change rc=$without"
 [ $with -ne 0 ] && [ $without -eq 0 ] || { echo "$id: demonstration does not discriminate"; exit 1; }
 d=/verif/seeded/$id
@@ -44,7 +45,7 @@ meta = {
     "where": "the sub-agent's scratch worktree under /tmp (removed afterwards), never /repo",
     "ran": ["cargo test --workspace --no-fail-fast --offline  -> 291 passed, 0 failed (with the change)",
             "cd demo && cargo run --offline  -> non-zero exit with the change (demo_with_change.txt)",
-            "git stash push -- src; cd demo && cargo run --offline -> exit 0 without the change (demo_without_change.txt); git stash pop"],
+            "git apply -R patch.diff; cd demo && cargo run --offline -> exit 0 without the change (demo_without_change.txt); git apply patch.diff"],
   },
   "apply": "git -C /repo apply /verif/seeded/%s/patch.diff ; run checks ; git -C /repo checkout -- ." % sid,
   "demo": "demo/ depends on pushr by path /repo; run it with CARGO_TARGET_DIR outside /verif while the patch is applied",
